@@ -34,7 +34,7 @@ BASE_KINDS = ("kbi", "sysexit", "abort")
 class Abort(BaseException):
     """A project-defined exception that does not derive from Exception."""
 
-MULTI_PART_KINDS = ("fail", "error", "skip", "subfail", "suberror")
+MULTI_PART_KINDS = ("fail", "error", "skip", "subfail", "suberror", "kbi")
 
 DETAIL_NAMES = ("d0", "d1", "traceback", "traceback-1", "Failed expectation",
                 "Failed expectation-1", "dét", "fx0")
@@ -91,6 +91,10 @@ class Cfg:
         self.skip_decorators = True
         self.odd_skip_reasons = True
         self.exotic_patch_targets = True
+        self.bulk_cleanups = True
+        self.force_before_run = True
+        self.reraise = True
+        self.volatile_mismatch_details = True
         self.__dict__.update(kw)
 
 
@@ -106,6 +110,8 @@ class _Gen:
         self.fixtures = {}
         self.cells = {}
         self.onexc = 0
+        self.simple_raises = []
+        self.bulk = 0
         self.nobjs = 3
 
     def marker(self):
@@ -143,6 +149,9 @@ class _Gen:
 
     def raise_op(self):
         t, cfg = self.t, self.cfg
+        if cfg.reraise and self.simple_raises and t.chance("faults", 1, 8, "raise-same-object-again"):
+            k0, m0 = self.simple_raises[t.draw("faults", len(self.simple_raises), "which")]
+            return self.op(["raise", k0, m0, "again"])
         kind = t.choice("faults", cfg.kinds, "raise-kind")
         extra = None
         if kind == "multi":
@@ -153,7 +162,10 @@ class _Gen:
             extra = t.choice("faults", sorted(USER_CLASSES), "user-class")
         elif kind == "xfail":
             extra = self.marker()   # marker of the assertion behind the expected failure
-        return self.op(["raise", kind, self.marker(), extra])
+        marker = self.marker()
+        if kind in ("fail", "error", "subfail", "suberror") and extra is None:
+            self.simple_raises.append((kind, marker))
+        return self.op(["raise", kind, marker, extra])
 
     def multi_parts(self, depth):
         """Parts of a MultipleExceptions: [kind, marker] or ["multi", [parts]] (nested); may be empty."""
@@ -177,7 +189,13 @@ class _Gen:
             name = t.choice("program", DETAIL_NAMES, "mm-detail-name")
             if any(name == n for n, _ in det):
                 continue   # one dict: names within a single mismatch are distinct
-            det.append([name, self.payload(allow_empty=False)])
+            if self.cfg.volatile_mismatch_details and self.cfg.setcells and t.chance("program", 1, 4, "volatile-mm-detail"):
+                # a lazily evaluated detail over mutable state (a live log buffer, say)
+                cell = "cell%d" % len(self.cells)
+                self.cells[cell] = self.payload(allow_empty=False)
+                det.append([name, ["cellref", cell]])
+            else:
+                det.append([name, self.payload(allow_empty=False)])
         desc = self.marker() + ("☃" if t.chance("payload", 1, 3) else "")
         return {"desc": desc, "details": det}
 
@@ -204,6 +222,10 @@ class _Gen:
         if cfg.force:
             menu.append((1, "force_fail"))
         what = t.weighted("program", menu, "op")
+        if cfg.bulk_cleanups and not self.bulk and depth == 0 and t.draw("program", 150, "bulk-cleanups?") == 149:
+            # a boundary count: very many pending cleanups
+            self.bulk = t.choice("program", (60, 450, 1100), "bulk-count")
+            return self.op(["bulk_cleanups", self.bulk])
         if what == "nop":
             return self.op(["nop"])
         if what == "cleanup":
@@ -298,6 +320,9 @@ def gen_program(tape, cfg):
                 "pos": t.draw("program", 5, "handler-pos"),
                 "reports": t.choice("program", ("failure", "error", "skip"), "handler-reports"),
             })
+    prog["force_before_run"] = None
+    if cfg.force and cfg.force_before_run and t.chance("program", 1, 20, "force-failure-set-before-run"):
+        prog["force_before_run"] = t.choice("program", ("instance", "class"), "where")
     prog["stages"] = {s: g.ops() for s in STAGES}
     prog["cleanups"] = g.cleanups
     prog["fixtures"] = g.fixtures
@@ -335,8 +360,9 @@ class ScriptedMismatch:
 
 
 class ScriptedMatcher:
-    def __init__(self, mm):
+    def __init__(self, mm, env=None):
         self._mm = mm
+        self._env = env
         self.seen = []
 
     def match(self, matchee):
@@ -345,8 +371,13 @@ class ScriptedMatcher:
             return None
         details = {}
         for name, (shape, chunks) in self._mm["details"]:
-            details[name] = _content.Content(TEXT_CT if shape == "text" else BIN_CT,
-                                             (lambda c=chunks: list(c)))
+            if shape == "cellref":
+                env, cell = self._env, chunks
+                ct = TEXT_CT if env.prog["cells"][cell]["shape"] == "text" else BIN_CT
+                details[name] = _content.Content(ct, (lambda c=cell: list(env.cells[c])))
+            else:
+                details[name] = _content.Content(TEXT_CT if shape == "text" else BIN_CT,
+                                                 (lambda c=chunks: list(c)))
         return ScriptedMismatch(self._mm["desc"], details)
 
     def __str__(self):
@@ -420,6 +451,7 @@ class Env:
         self.clobbered = []     # bytes of details a user addDetail replaced
         self.user_handler_log = []
         self.fixture_objs = {}
+        self.raised_objects = {}
 
     def reset_sources(self):
         self.cells = {k: list(v["chunks"]) for k, v in self.prog["cells"].items()}
@@ -485,7 +517,7 @@ def _exc_info_of(exc):
         return sys.exc_info()
 
 
-def _do_raise(case, kind, marker, extra):
+def _do_raise(case, kind, marker, extra, env=None):
     if kind == "xfail":
         def predicate():
             raise AssertionError(extra)
@@ -504,7 +536,10 @@ def _do_raise(case, kind, marker, extra):
         case.skipTest(marker)
     if kind == "multi":
         raise _multi_exc(extra)
-    raise _make_exc(kind, marker, extra)
+    exc = _make_exc(kind, marker, extra)
+    if env is not None:
+        env.raised_objects[marker] = exc
+    raise exc
 
 
 class ScriptedFixture(_fixtures.Fixture):
@@ -564,7 +599,7 @@ def run_ops(case, env, ops):
             env.cells[op[1]] = list(op[2])
         elif what in ("expect", "assert", "assert_fn"):
             mm = op[1]
-            matcher = ScriptedMatcher(mm)
+            matcher = ScriptedMatcher(mm, env)
             matchee = ("matchee", oid)
             raised = None
             try:
@@ -598,7 +633,15 @@ def run_ops(case, env, ops):
         elif what == "force_fail":
             case.force_failure = True
         elif what == "raise":
-            _do_raise(case, op[1], op[2], op[3])
+            if op[3] == "again":
+                # the same exception object as an earlier raise of this run (if that one ran at all)
+                if op[2] not in env.raised_objects:
+                    env.raised_objects[op[2]] = _make_exc(op[1], op[2])
+                raise env.raised_objects[op[2]]
+            _do_raise(case, op[1], op[2], op[3], env)
+        elif what == "bulk_cleanups":
+            for i in range(op[1]):
+                case.addCleanup(env.world.xlog, "bulk", i)
         else:  # pragma: no cover
             raise AssertionError(what)
 
@@ -648,7 +691,11 @@ def build_case(prog, env, run_test_with=None):
     if prog["class_skip"] is not None:
         Scripted = testtools.skip(prog["class_skip"])(Scripted)
     Scripted.__qualname__ = Scripted.__name__ = "Scripted"
+    if prog.get("force_before_run") == "class":
+        Scripted.force_failure = True
     case = Scripted("test_it")
+    if prog.get("force_before_run") == "instance":
+        case.force_failure = True
     for h in prog["handlers"]:
         cls = USER_CLASSES[h["cls"]]
         method = _REPORT[h["reports"]]
@@ -697,6 +744,7 @@ class Model:
         self.expect_mismatches = []   # mismatch dicts from expectThat
         self.assert_mismatches = []
         self.mm_payloads = []  # (source op id, name, bytes) that must be delivered
+        self.mm_cellrefs = []  # (source op id, name, cell): bytes current at reporting time
         self.fx_payloads = []  # (fid, name, bytes)
         self.user_details = {}  # name -> cell (last registration wins)
         self.cells = {k: list(v["chunks"]) for k, v in prog["cells"].items()}
@@ -704,6 +752,8 @@ class Model:
         self.handlers = []     # on-exception handler ids registered so far
         self.skip_decorated = None
         self.setup_ok = None
+        if prog.get("force_before_run"):
+            self.force = True
         self.outcome_by_decorator = False
         self._run()
 
@@ -769,11 +819,17 @@ class Model:
             elif what == "force_fail":
                 self.force = True
             elif what == "raise":
-                self._raise(op[1], op[2], stage, op[3])
+                self._raise(op[1], op[2], stage, None if op[3] == "again" else op[3])
+            elif what == "bulk_cleanups":
+                for i in range(op[1]):
+                    self.stack.append(("bulk", i))
 
     def _mm_details(self, oid, mm):
         for name, (shape, chunks) in mm["details"]:
-            self.mm_payloads.append((oid, name, b"".join(chunks)))
+            if shape == "cellref":
+                self.mm_cellrefs.append((oid, name, chunks))     # resolved at reporting time
+            else:
+                self.mm_payloads.append((oid, name, b"".join(chunks)))
 
     def _fixture(self, fid, stage):
         spec = self.prog["fixtures"][fid]
@@ -821,7 +877,8 @@ class Model:
             body_ok = self._stage(st["test"], "test")
             if prog["xfail_decorator"]:
                 new = self.R[n0:]
-                if not body_ok and not any(r.base for r in new):
+                # (the wrapper catches Exception: a MultipleExceptions is one, whatever it carries)
+                if not body_ok and not any(r.base and not r.part_of_multi for r in new):
                     # any Exception-derived error (incl. MultipleExceptions, skip) becomes
                     # an expected failure; the wrapper attaches no traceback of its own
                     del self.R[n0:]
@@ -836,7 +893,9 @@ class Model:
                 self._stage(st["tearDown_post"], "tearDown")
         while self.stack:
             ent = self.stack.pop()
-            if ent[0] == "cleanup":
+            if ent[0] == "bulk":
+                self.log.append(("bulk", ent[1]))
+            elif ent[0] == "cleanup":
                 self.log.append(("cleanup", ent[1]))
                 self._stage(prog["cleanups"][ent[1]], "cleanup")
             elif ent[0] == "fxclean":
